@@ -160,7 +160,8 @@ Section AnyServer.
   Lemma complete_no_block1 fuel s t a mbse s' tr o :
     complete_by_requesting_block2 serve fuel s t a mbse = (s', tr, o) -> no_block1 tr.
   Proof.
-    unfold complete_by_requesting_block2. destruct (rs_block2 a) as [b2|]; [|intros H; inv H; constructor].
+    unfold complete_by_requesting_block2. destruct (unexpected_first_block t a); [intros H; inv H; constructor|].
+    destruct (rs_block2 a) as [b2|]; [|intros H; inv H; constructor].
     destruct (negb (bt_more b2)); [intros H; inv H; constructor|].
     destruct (negb (bt_num b2 =? 0)); [intros H; inv H; constructor|]. apply block2_loop_no_block1.
   Qed.
@@ -369,16 +370,33 @@ Qed.
 Lemma block2_assembly_exact_lemma fuel script t initial mbse rest tr r :
   complete_by_requesting_block2 serve_script fuel script t initial mbse = (rest, tr, Done r) ->
   (r = initial /\ rs_block2 initial = None /\ rest = script) \/
-  (exists b, rs_block2 initial = Some b /\ bt_more b = false /\ r = clear_block2 initial /\ rest = script) \/
+  (exists b, rs_block2 initial = Some b /\ bt_more b = false /\
+             (bt_num b = 0 \/ exists rb, rq_block2 t = Some rb /\ bt_num rb <> 0) /\
+             r = clear_block2 initial /\ rest = script) \/
   (exists szx consumed, rs_block2 initial = Some (0, true, szx) /\ script = map SResp consumed ++ rest /\
                         b2_chain initial consumed r /\ length tr = length consumed).
 Proof.
-  unfold complete_by_requesting_block2. destruct (rs_block2 initial) as [[[n m] szx]|] eqn:Hb.
+  unfold complete_by_requesting_block2, unexpected_first_block. destruct (rs_block2 initial) as [[[n m] szx]|] eqn:Hb.
   2:{ intros H; inv H. left. auto. }
-  unfold bt_more, bt_num. cbn [fst snd]. destruct m; cbn [negb].
+  unfold bt_more, bt_num. cbn [fst snd].
+  destruct (negb (n =? 0) && match rq_block2 t with Some rb => fst (fst rb) =? 0 | None => true end) eqn:Hun; [discriminate|].
+  destruct m; cbn [negb].
   - destruct (n =? 0) eqn:E; cbn [negb]; [|discriminate]. intros H. apply block2_loop_exact in H as (consumed & H1 & H2 & H3).
     right. right. exists szx, consumed. replace n with 0 by lia. auto.
-  - intros H; inv H. right. left. eexists. repeat split; reflexivity.
+  - intros H; inv H. right. left. eexists. repeat split; try reflexivity.
+    cbn [fst snd]. destruct (n =? 0) eqn:E; [left; lia|]. cbn [negb andb] in Hun.
+    destruct (rq_block2 t) as [rb|]; [|discriminate]. right. exists rb. split; [reflexivity|]. unfold bt_num. lia.
+Qed.
+
+(* the first response must be the first block: a later block, even a final one, is refused (fix 69c1201) *)
+Lemma first_block2_number_checked_lemma {S} (serve : S -> request -> S * sresult) fuel s t initial mbse b :
+  rs_block2 initial = Some b -> bt_num b <> 0 ->
+  (rq_block2 t = None \/ exists rb, rq_block2 t = Some rb /\ bt_num rb = 0) ->
+  complete_by_requesting_block2 serve fuel s t initial mbse = (s, [], Err UnexpectedBlock2).
+Proof.
+  intros Hb Hn Ht. unfold complete_by_requesting_block2, unexpected_first_block. rewrite Hb.
+  replace (bt_num b =? 0) with false by lia. cbn [negb andb].
+  destruct Ht as [->|(rb & -> & Hrb)]; [reflexivity|]. rewrite Hrb. reflexivity.
 Qed.
 
 (* Theorem 3, second half: if every response is a slice of one of several representations carrying distinct ETags, then an
@@ -634,9 +652,17 @@ Section Ref2.
     assert (Hpol : 0 <= pol (s_policy2 scf) k 6) by (apply pol_nonneg; [apply (h_pol2 _ _ _ Hh)|lia]).
     assert (Hs3 : 0 <= s3 <= 6) by (subst s3; destruct first_req as [[_ ->]|(m2 & _ & Hr)]; lia).
     pose proof (bsize_pos s3 ltac:(lia)) as Hsz. pose proof (blen_nonneg rep) as Hnn.
-    unfold complete_by_requesting_block2. cbn [clear_block1 rs_block2].
+    unfold complete_by_requesting_block2, unexpected_first_block. cbn [clear_block1 rs_block2].
+    assert (Hfirst0 : match rs_block2 r0 with Some b => bt_num b = 0 | None => True end).
+    { subst r0. unfold slice_response. rewrite (current_rep scf e rep Hh).
+      destruct (c_block2 cfg) as [[[n2 m2] s2]|] eqn:Hcb.
+      - destruct Hb2 as [Hn|(m2' & s2' & Heq & _)]; [congruence|]. rewrite ?Hcb in Heq. inv Heq.
+        match goal with |- context [if ?c then plain _ else _] => destruct c end; [exact I|]. cbn [rs_block2 bt_num fst Z.mul].
+        apply Zdiv_0_l.
+      - match goal with |- context [if ?c then plain _ else _] => destruct c end; [exact I|]. cbn [rs_block2].
+        match goal with |- context [if ?c then Some _ else None] => destruct c end; [reflexivity|exact I]. }
     destruct (bsize s3 <? blen rep) eqn:E.
-    - rewrite (Hmore eq_refl). cbn [bt_more bt_num fst snd negb]. rewrite Z.eqb_refl. cbn [negb].
+    - rewrite (Hmore eq_refl) in *. cbn [bt_more bt_num fst snd negb]. rewrite Z.eqb_refl. cbn [negb andb].
       destruct (block2_loop_ref scf e rep Hh fuel st t (clear_block1 r0) mbse 0 s3 1) as (st' & tr & r & Hrun & H1 & H2 & H3 & H4 & H5 & H6);
         try lia; cbn [clear_block1 rs_block2 rs_payload rs_etag]; try assumption.
       + apply Hmore. reflexivity.
@@ -644,7 +670,7 @@ Section Ref2.
       + exists st', tr, r. repeat split; try assumption. rewrite H3. exact Hc.
     - specialize (Hfin eq_refl). assert (Hrep : rs_payload r0 = rep) by (rewrite Hp, bslice_0; apply bto_all; lia).
       destruct (rs_block2 r0) as [b|].
-      + rewrite Hfin. cbn [negb]. eexists _, [], _. split; [reflexivity|]. cbn [clear_block2 clear_block1 rs_payload rs_etag rs_code rs_block1].
+      + rewrite Hfirst0, Z.eqb_refl. cbn [negb andb]. rewrite Hfin. cbn [negb]. eexists _, [], _. split; [reflexivity|]. cbn [clear_block2 clear_block1 rs_payload rs_etag rs_code rs_block1].
         repeat split; try assumption. constructor.
       + eexists _, [], _. split; [reflexivity|]. cbn [clear_block1 rs_payload rs_etag rs_code rs_block1]. repeat split; try assumption. constructor.
   Qed.
@@ -785,12 +811,3 @@ Proof.
     + apply Forall_forall. intros x Hx. apply Hall. rewrite Hscript. apply in_or_app. left. apply in_map. exact Hx.
 Qed.
 
-(* the known finding, as a witness of the model (replayed on the implementation by corpus/C05/known-finding.json) *)
-Lemma first_block2_number_unchecked_witness : exists script cfg tr r,
-  run_script script cfg = (tr, Done r) /\
-  (exists x, script = [SResp x] /\ rs_block2 x = Some (2, false, 5)) /\ blen (rs_payload r) = 87 /\ rs_block2 r = None.
-Proof.
-  exists [SResp {| rs_code := 69; rs_block1 := None; rs_block2 := Some (2, false, 5); rs_etag := Some 4; rs_payload := mkbody 87 148; rs_maxexp := 6 |}],
-         {| c_body := []; c_mps := 1124; c_mbse := 5; c_block2 := None |}.
-  eexists _, _. split; [vm_compute; reflexivity|]. split; [eexists; split; reflexivity|]. split; vm_compute; reflexivity.
-Qed.
